@@ -28,4 +28,11 @@ def build(u):
             tail="option_value",
             note="slice handle_init#value: the `let option_value = match (json_value, default_value) {..};` statement; json_value: Option<&serde_json::Value> "
                  "(result of HashMap::get), default_value: &Option<options::Value> (result of the real accessor default()), name: &String are declared in the unit")
+    u.raw("impl Builder {   // env mirror: the real impl header carries the state and stream type parameters\n")
+    u.slice(m, f, "cln_plugin::Builder::handle_init#store",
+            r"^self\.option_values\.insert\(", r"^self\.option_values\.insert\(",
+            "fn handle_init__store(&mut self, name: &String, option_value: Option<options::Value>)",
+            note="slice handle_init#store: the `self.option_values.insert(name.to_string(), option_value);` statement; self is an env mirror "
+                 "with the real field `option_values`; name: &String (key of the real `options` table) and option_value are declared in the unit")
+    u.raw("}\n")
     u.raw("} // verus!\nfn main() {}\n")
